@@ -15,10 +15,8 @@ open Opcua Opcua.Tamper
 
 def siteName : Site → String
   | .hdr => "hdr"
-  | .sigSlice => "sigSlice"
   | .padByte => "padByte"
   | .padByte2 => "padByte2"
-  | .bodySlice => "bodySlice"
 
 def decOf : String → Option (Bytes → Option Bytes)
   | "aes" => some fun x => if 16 ≤ x.length ∧ x.length % 16 = 0 then some x else none
